@@ -102,6 +102,7 @@ func init() {
 			{"cache-latest", "whatever fills the RoleManagement cache from storage asks for the newest record (MaxUint32), never for the record in force at the current height: a rebuilt cache equals the cache of the node that executed the designating block", ruleCacheLatest},
 			{"historic-root", "every opening of a read-only trie store of an earlier root - the reset of the ledger copies contract storage out of its target root this way - uses a mode without the GC flag: the nodes of the target state that later blocks superseded are inactive, not gone", ruleHistoricRoot},
 			{"publish-atomic", "all private layers given to one PersistPrivate call (the block and its state changes) are merged inside one critical section of the store: the lock is taken before the loop over the layers and released after it", rulePublishAtomic},
+			{"page-tail-bound", "HeaderHashes.init recomputes the number of hashes held in complete pages from the persisted header height so that fewer than one page remains for memory at every height (folded around the page borders): the writer stores a page only when memory holds exactly one", rulePageTailBound},
 			{"stage-machine", "reset and jump are well-formed stage machines: unknown stage is an error; each stage ends by recording the label of the next clause as its last write and persists that layer before falling through; no value captured before the switch from a field a stage changes is used after that stage; the tail removes the marker; start-up resumes from it", ruleStageMachine},
 			{"cache-init", "a node reopened after a crash rebuilds every native cache field from storage and raises the in-memory dirty flags that have no storage record (votesChanged), so the blocks that follow give the same state roots as on a node that never stopped", ruleCacheInit},
 			{"resume-path", "no stage deletes data that Blockchain.init reads before it dispatches on the stage marker, and in-memory module state established inside one stage clause is also established on the common path (so a run resumed from a later stage has it)", ruleResumePath},
